@@ -108,8 +108,7 @@ Inductive log_error :=
 | StartNotLinearAncestor           (* the internal _StartNotLinearAncestor *)
 | StartNotInHistory                (* CommandError: Start revision not found in history of end revision. *)
 | StartAfterEnd                    (* CommandError: Start revision must be older than the end revision. *)
-| ExcludeNeedsTwo                  (* CommandError: --exclude-common-ancestry requires two different revisions *)
-| ValueErrorNone.                  (* ValueError: get_parent_map(None) is not valid  (graph.is_ancestor(start, None)) *)
+| ExcludeNeedsTwo.                 (* CommandError: --exclude-common-ancestry requires two different revisions *)
 
 (* a generator: what it yields, and the exception it ends with (if any) *)
 Definition lazy_views := (list view * option log_error)%type.
@@ -155,7 +154,8 @@ Definition linear_view (b : branch) (start end_ : option revid) (excl : bool) : 
            then None else Some StartNotLinearAncestor)
   end.
 
-(* _is_obvious_ancestor *)
+(* _is_obvious_ancestor (after a31cbfe: two dotted revnos must agree on base AND
+   branch number; with an open end only a mainline start is obvious) *)
 Definition is_obvious_ancestor (b : branch) (start end_ : option revid) : bool :=
   match start, end_ with
   | Some s, Some e =>
@@ -163,13 +163,18 @@ Definition is_obvious_ancestor (b : branch) (start end_ : option revid) : bool :
       | Ok sd, Ok ed =>
           match sd, ed with
           | [s0], [e0] => s0 <=? e0                                   (* both on mainline *)
-          | [s0; _; s2], [e0; _; e2] => if s0 =? e0 then s2 <=? e2 else false
-                                                                      (* start_dotted[0:1] == end_dotted[0:1] *)
+          | [s0; s1; s2], [e0; e1; e2] =>
+              if (s0 =? e0) && (s1 =? e1) then s2 <=? e2 else false  (* start_dotted[0:2] == end_dotted[0:2] *)
           | _, _ => false
           end
       | _, _ => false
       end
-  | _, _ => true
+  | Some s, None =>
+      match revision_id_to_dotted_revno b (Some s) with
+      | Ok [_] => true
+      | _ => false
+      end
+  | None, _ => true
   end.
 
 (* _generate_one_revision *)
@@ -206,34 +211,31 @@ Fixpoint split_at_merge (g : dag) (l : list view) : list view * option revid :=
                else let '(ini, m) := split_at_merge g l' in (v :: ini, m)
   end.
 
-(* graph.is_ancestor(start_rev_id, end_rev_id) in the delayed loop; with an open
-   end (end_rev_id None) vcsgraph raises ValueError("get_parent_map(None) is not valid"),
-   which nothing catches *)
-Definition generate_all (b : branch) (start end_ : option revid) (forward delayed excl : bool)
+(* _generate_all_revisions (after 036aad8: an open-ended range with a start ends
+   at the branch tip, so the graph queries get a real revision id) *)
+Definition generate_all (b : branch) (start end0 : option revid) (forward delayed excl : bool)
   : list view + log_error :=
+  let end_ := match start, end0 with
+              | Some _, None => br_tip b
+              | _, _ => end0
+              end in
   if delayed then
     let '(lin, err) := linear_view b start end_ excl in
     match split_at_merge (br_g b) lin with
     | (ini, Some r) =>
-        match start with
-        | Some s =>
-            match end_ with
-            | None => inr ValueErrorNone
-            | Some e => if is_ancestor (br_g b) s e
-                        then inl (ini ++ graph_view b start (Some r) (negb forward) excl)
-                        else inr StartNotInHistory
-            end
-        | None => inl (ini ++ graph_view b start (Some r) (negb forward) excl)
-        end
+        if match start, end_ with
+           | Some s, Some e => negb (is_ancestor (br_g b) s e)
+           | _, _ => false
+           end
+        then inr StartNotInHistory
+        else inl (ini ++ graph_view b start (Some r) (negb forward) excl)
     | (ini, None) =>
         match err with
         | Some _ => inr StartNotInHistory
         | None => inl ini
         end
     end
-  else if excl && match end_ with None => true | Some _ => false end
-       then inr ValueErrorNone      (* graph.find_unique_ancestors(None, [start_rev_id]) *)
-       else inl (graph_view b start end_ (negb forward) excl).
+  else inl (graph_view b start end_ (negb forward) excl).
 
 (* _calc_view_revisions *)
 Definition calc_view (b : branch) (start end_ : option revid) (forward gen_merge delayed excl : bool)
@@ -344,7 +346,6 @@ Definition lerr_name (e : log_error) : string :=
   | StartNotInHistory => "CommandError:start-not-found"
   | StartAfterEnd => "CommandError:start-after-end"
   | ExcludeNeedsTwo => "CommandError:exclude-needs-two"
-  | ValueErrorNone => "ValueError"
   end.
 Definition oview (v : view) : obs := OL [onat (v_id v); oopt (olist onat) (v_revno v); onat (v_depth v)].
 Definition olazy (r : list view * option log_error) : obs :=
